@@ -49,6 +49,29 @@ def bodies_for(run, prop):
     return out
 
 
+def reanalyse_inlined(run, b):
+    """Automaton of body `b` with calls to other protocol methods of `self` inlined (violations raised while doing so are
+    discarded: the disciplines are judged on the ordinary run)."""
+    I = run.I
+    u = b["uname"]
+    old_edges = I.edges.get(u)
+    nv = len(I.violations)
+    I.edges[u] = set()
+    I.inline_self_root = b
+    try:
+        import protocol as P
+        cls = P.body_class(b)
+        I.analyse(b, run.entry_for(b, cls))
+        edges = I.edges[u]
+    except Exception:
+        edges = None
+    finally:
+        I.inline_self_root = None
+        del I.violations[nv:]
+        I.edges[u] = old_edges
+    return C.computed_edges(edges) if edges is not None else None
+
+
 def rule_contracts(prop, config="all", floor_key=None):
     run = RP.get_run(config)
     facts = run.facts
@@ -71,6 +94,18 @@ def rule_contracts(prop, config="all", floor_key=None):
             continue
         comp = C.computed_edges(run.I.edges[u])
         probs, n = C.conforms(spec, comp)
+        if probs and b is not None:
+            # the body may delegate to another protocol method of the same receiver that the contract spells out inline
+            # (e.g. `next` -> `self.next_cfg(.., &Default::default())`): compare again with such calls inlined
+            spec_nodes = {e.src for e in spec} | {e.dst for e in spec}
+            foreign = {x for e in comp for x in (e.src, e.dst) if x.startswith("self.") and re.match(r"^self\.\w+:", x) and x not in spec_nodes}
+            if foreign:
+                comp2 = reanalyse_inlined(run, b)
+                if comp2 is not None:
+                    probs2, n2 = C.conforms(spec, comp2)
+                    if not probs2:
+                        probs, n, comp = probs2, n2, comp2
+                        r.info.setdefault("compared_after_inlining", []).append(u)
         nedges += n
         r.obligations += n
         bad_keys = set()
@@ -102,6 +137,6 @@ def rule_contracts(prop, config="all", floor_key=None):
                      "computed edge is an instance of a contract edge and every contract edge is realised. %d bodies, %d edge "
                      "obligations" % (len(bodies), nedges))
     r.nontrivial = len([u for u in bodies if len(run.I.edges[u]) > 3])
-    r.info = {"bodies": len(bodies), "edges": nedges, "unspecified": unspecified}
+    r.info = dict(r.info or {}, bodies=len(bodies), edges=nedges, unspecified=unspecified)
     r.require_floor(len(bodies), facts, floor_key or ("CONTRACT.%s.bodies" % (prop or "all")), "bodies with a contract automaton")
     return r
